@@ -1,6 +1,6 @@
 module verif/harness
 
-go 1.19
+go 1.21
 
 require github.com/goccy/go-json v0.10.2
 
